@@ -233,7 +233,16 @@ def first_match_search(prog, chk, rid):
                         tgt = f.nodes[f.strip(nd["c"][-1] if nd["k"] == "CXXOperatorCallExpr" and len(nd["c"]) > 1 else nd["c"][0])]
                         if nd["k"] == "CXXOperatorCallExpr":
                             tgt = f.nodes[f.strip(nd["c"][1])] if len(nd["c"]) > 1 else tgt
-                        if tgt["k"] == "DeclRefExpr" and tgt["ref"].get("dk") == "local" and ("*" in (tgt["ref"].get("t") or "") or "Iterator" in (tgt["ref"].get("t") or "")):
+                        is_cursor = tgt["k"] == "DeclRefExpr" and tgt["ref"].get("dk") == "local" and ("*" in (tgt["ref"].get("t") or "") or "Iterator" in (tgt["ref"].get("t") or ""))
+                        if tgt["k"] == "DeclRefExpr" and tgt["ref"].get("dk") == "local" and not is_cursor:
+                            # an integer index counts as the cursor when it forms an element address (`data + i`, `data[i]`)
+                            for m_ in f.nodes:
+                                if (m_["k"] == "BinaryOperator" and m_.get("op") == "+" or m_["k"] == "ArraySubscriptExpr") and len(m_["c"]) == 2:
+                                    ops_ = [f.nodes[f.strip(x)] for x in m_["c"]]
+                                    if any(o_["k"] == "DeclRefExpr" and o_.get("ref", {}).get("id") == tgt["ref"]["id"] for o_ in ops_) and \
+                                       any("*" in (o_.get("t") or "") for o_ in ops_):
+                                        is_cursor = True
+                        if is_cursor:
                             (fwd if (nd.get("op") or nd.get("oop")) == "++" else back).append(i)
                 if back:
                     chk.bad(rid, f, "search-walks-backwards", f.where(back[0]),
